@@ -51,18 +51,24 @@ class Row:
 def run_domain(ctx, args, tag="synth"):
     """Run harness + model; returns rows (or None when the harness could not run)."""
     d = f"{ctx.run_dir}/{tag}"
-    rc, out, d = run_hx(ctx, "synth", args, out_dir=d, timeout=7200)
+    for attempt in range(3):        # deterministic generator: a killed harness process is simply started again
+        rc, out, d = run_hx(ctx, "synth", args, out_dir=d, timeout=7200)
+        if rc == 0:
+            break
     if rc != 0:
         ctx.violation(f"harness domain synth crashed (rc={rc})", {"kind": "harness-crash", "log": out[-4000:]},
                       no_input=True, kind="model!=impl")
         return None, d
-    mrc, err = run_model("netlist", d)
-    if mrc != 0:
-        ctx.log(f"vmodel netlist rc={mrc}: {err[-500:]}")
     ops = read_lines(f"{d}/ops.txt") or []
     imp = read_lines(f"{d}/impl.txt") or []
-    mod = read_lines(f"{d}/model.txt") or []
     ora = read_lines(f"{d}/oracle.txt") or []
+    mod = []
+    for attempt in range(3):        # the driver is a plain filter: a killed/short run is simply repeated
+        mrc, err = run_model("netlist", d)
+        mod = read_lines(f"{d}/model.txt") or []
+        if mrc == 0 and len(mod) == len(ops):
+            break
+        ctx.log(f"vmodel netlist rc={mrc} ({len(mod)}/{len(ops)} replies), attempt {attempt + 1}: {err[-300:]}")
     if not (len(ops) == len(imp) == len(ora)) or len(mod) != len(ops):
         ctx.violation(f"reply streams differ in length: ops={len(ops)} impl={len(imp)} model={len(mod)} oracle={len(ora)}",
                       {"kind": "stream-length", "dir": d}, no_input=True, kind="model!=impl")
@@ -105,4 +111,16 @@ def decode_src(h):
 
 def sizes(ctx):
     """(designs, cycles) per tier."""
-    return tier_n(ctx, 240, 5000), tier_n(ctx, 5, 8)
+    return tier_n(ctx, 200, 5000), tier_n(ctx, 5, 8)
+
+
+CORPUS = f"{ROOT}/corpus/C19/regress.txt"
+
+
+def corpus_rows(ctx):
+    """The committed regression corpus (request lines of designs that pass on the unchanged tree), replayed
+    before anything is generated."""
+    if not os.path.exists(CORPUS):
+        return []
+    rows, _ = run_domain(ctx, ["--replay", CORPUS], tag="corpus")
+    return rows or []
